@@ -184,7 +184,7 @@ def stsPlane : Plane StsW where
 
 /-! ## blue-green Deployment / CloneSet (`RV.CtlBlueGreen`)
 
-  `Obs`: generation, observedGeneration, updateRevision; CloneSet: stableRevision (`status.currentRevision`);
+  `Obs`: generation, observedGeneration; CloneSet: updateRevision, stableRevision (`status.updateRevision` / `currentRevision`);
   Deployment: updatedReady = `status.readyReplicas` of the ReplicaSet of the current pod template — the newest ReplicaSet of
   the world when there is one (`getUpdatedReadyReplicas`); its stable revision is the stable-revision label. -/
 
@@ -195,6 +195,9 @@ structure BGW where
 
 /-- the value the harness gives the stable-revision label of a Deployment that carries it -/
 def bgStableLabel : String := "stable-hash"
+
+/-- `util.ComputeHash(&spec.template)` of the (fixed) pod template of the blue-green Deployment -/
+def bgTplRev : String := "bgtpl"
 
 /-- the BatchRelease as the blue-green model reads it (this BatchRelease has UID 0) -/
 def bgBR (br : BR) : CtlBlueGreen.BR :=
@@ -213,8 +216,10 @@ def bgInfo (kind : CtlBlueGreen.Kind) (w : BGW) : Out (Option Info) :=
       let sr := match kind with
         | .cloneSet => w.obs.stableRevision
         | .deployment => if wl.stableLabel then bgStableLabel else ""
-      .val (some (mkInfo r w.obs.generation w.obs.observedGeneration wl.status.replicas wl.status.updated ur
-        w.obs.updateRevision sr))
+      let upd := match kind with
+        | .cloneSet => w.obs.updateRevision
+        | .deployment => bgTplRev
+      .val (some (mkInfo r w.obs.generation w.obs.observedGeneration wl.status.replicas wl.status.updated ur upd sr))
 
 def bgKindOf : CtlBlueGreen.Kind → RV.BatchCtx.Kind
   | .deployment => .depBlueGreen
